@@ -38,7 +38,7 @@ theorem pop_of_served {e : Env} {s : P9218} {c id : Nat} {pre post : List Nat} (
                    (upd s.ring c (if c % 2 = 1 then post ++ pre ++ [id] else id :: (post ++ pre)))
                    s.prio (!s.toggle) s.bufId s.bufClass, .frame f) := by
   obtain ⟨_, _, hsend, _⟩ := firstClass_some h.found
-  obtain ⟨e', q', f, hcons, _⟩ := pop_stream_spec (control := s.control) e (shift_none h.noctl) id hsend
+  obtain ⟨e', q', f, hcons, _⟩ := pop_stream_spec (strict := True) (control := s.control) e (shift_none h.noctl) id hsend
   refine ⟨e', q', f, hcons, ?_⟩
   simp [P9218.pop, h.noctl, h.found, hcons]
 
